@@ -314,7 +314,7 @@ def toDictL (c : ECfg) (L : Lim) (kf vf : Value â†’ RL Value) (acc : KV) : VL â†
       let acc' := Seq.dSet acc k v
       measure L (plainDictSize c acc')
       toDictL c L kf vf acc' xs e
-    else .error (.base .type)
+    else .error (.base (keyErr k))
 
 def drain (s : VL Ã— Option LErr) : RL VL :=
   match s.2 with
@@ -384,9 +384,9 @@ def indexerV (r : ObjL) (args : VL) : Eval.R Value :=
     | some i => liftSeq (Seq.pyIndex l i)
     | none => .error .noFunction
   | .val (.dict d), [k] =>
-    if hashable k then (match Seq.dGet d k with | some v => .ok v | none => .error .key) else .error .type
+    if hashable k then (match Seq.dGet d k with | some v => .ok v | none => .error .key) else .error (keyErr k)
   | .val (.dict d), [k, dflt] =>
-    if hashable k then .ok ((Seq.dGet d k).getD dflt) else .error .type
+    if hashable k then .ok ((Seq.dGet d k).getD dflt) else .error (keyErr k)
   | _, _ => .error .noFunction
 
 def indexerL (c : ECfg) (L : Lim) (r : ObjL) (args : VL) : RL ObjL := do
@@ -469,7 +469,8 @@ def memberOfL (c : ECfg) (L : Lim) (r : ObjL) (name : Name) : RL ObjL :=
       .error (.base .unknownFunction)
 
 def mkDictL (ps : KV) : RL ObjL :=
-  if ps.all (fun p => hashable p.1) then .ok (.val (.dict (Seq.dOfPairs ps))) else .error (.base .type)
+  if ps.all (fun p => hashable p.1) then .ok (.val (.dict (Seq.dOfPairs ps)))
+  else .error (.base (if ps.any (fun p => hasIter p.1) then .outOfDomain else .type))
 
 /-! ## `list(...)`: iterators among the arguments are opened, each through `limit_iterable`; the
 flattened stream is the `Iterable()` argument of `to_list` -/
@@ -743,7 +744,7 @@ def callMethodL (c : ECfg) (L : Lim) (ev : EvL) (C : Ctx) (bad : Eval.Err) (r : 
       let ko â† ev C k
       let kv â† toVL ko
       measure L (objSz c r); measure L (sizeofV c kv)
-      if hashable kv then pure (.val ((Seq.dGet d kv).getD .null)) else .error (.base .type)
+      if hashable kv then pure (.val ((Seq.dGet d kv).getD .null)) else .error (.base (keyErr kv))
     | _ => .error (.base bad)
   | .get, [k, dflt] =>
     match r with
@@ -753,7 +754,7 @@ def callMethodL (c : ECfg) (L : Lim) (ev : EvL) (C : Ctx) (bad : Eval.Err) (r : 
       let dobj â† ev C dflt
       let dv â† toVL dobj
       measure L (objSz c r); measure L (sizeofV c kv); measure L (sizeofV c dv)
-      if hashable kv then pure (.val ((Seq.dGet d kv).getD dv)) else .error (.base .type)
+      if hashable kv then pure (.val ((Seq.dGet d kv).getD dv)) else .error (.base (keyErr kv))
     | _ => .error (.base bad)
   | .unpack, names =>
     withIter c L bad r (unpackNames ev C bad names) fun nm s => do
